@@ -57,7 +57,10 @@ def main():
     dev = zoo.make_device(cfg["dev"], rng, max_edge_length=cfg.get("mel", 1.0), lam=cfg.get("lam", 2.0), smooth=cfg.get("smooth", 0))
     res = {"threads": os.environ.get("NUMBA_NUM_THREADS"), "mesh": {k: sha(v) for k, v in dict(
         sites=dev.mesh.sites, elements=dev.mesh.elements, areas=dev.mesh.areas, edges=dev.mesh.edge_mesh.edges,
-        dual=dev.mesh.edge_mesh.dual_edge_lengths, lengths=dev.mesh.edge_mesh.edge_lengths, boundary=dev.mesh.edge_mesh.boundary_edge_indices).items()}}
+        dual=dev.mesh.edge_mesh.dual_edge_lengths, lengths=dev.mesh.edge_mesh.edge_lengths, boundary=dev.mesh.edge_mesh.boundary_edge_indices,
+        voronoi=np.concatenate([np.asarray(p_, dtype=float).ravel() for p_ in dev.mesh.voronoi_polygons]),
+        voronoi_sizes=np.array([len(p_) for p_ in dev.mesh.voronoi_polygons])).items()}}
+    res["mesh"]["sites_n"] = int(len(dev.mesh.sites))
     A = tdgl.Parameter(vec, B=cfg.get("B", 0.5))
     if cfg.get("timedep"):
         A = tdgl.Parameter(ramp, rate=8.0, time_dependent=True) * A
